@@ -103,3 +103,14 @@ Definition shutdown_mode_of (exporter : N) : shutdown_mode :=
 (** The context oracle of an export during which Shutdown is called in wait number [at]. *)
 Definition ctx_with_shutdown (mode : shutdown_mode) (at_wait : nat) (ctx_fires : nat -> Z -> bool) : nat -> Z -> bool :=
   fun k d => ctx_fires k d || match mode with Interrupts => Nat.eqb k at_wait | _ => false end.
+
+(** ** wait(ctx, delay), faithfully (retry.go).  Since commit 4b7b30b it returns the context error at once when the context
+    is already done, whatever the delay; a context that ends during the wait is still reported unless the timer has fired
+    by then.  [ctx_done k]: the context is done when the k-th wait begins (or ends before its timer). *)
+Definition wait_ctx_fires (ctx_done : nat -> bool) : nat -> Z -> bool :=
+  fun k _ => ctx_done k.
+
+(** The wait before 4b7b30b (F-C14-3): the context error was returned only when the timer had NOT fired, and a timer of
+    length <= 0 has always fired by the time it is looked at. *)
+Definition wait_ctx_fires_old (ctx_done : nat -> bool) : nat -> Z -> bool :=
+  fun k d => ctx_done k && (0 <? d).
